@@ -130,10 +130,50 @@ def fixed_extent(n):
     return one * cnt
 
 
-def gen_tree(rng, **opts):
+def gen_tree(rng, dup_names=False, **opts):
     g = Gen(rng, **opts)
     t = g.group(0, False, False, top=True)
+    if dup_names:
+        duplicate_names(t, rng)
     return t
+
+
+def duplicate_names(tree, rng):
+    """give an item in one group the data name of an item in ANOTHER group (legal COBOL: qualified names):
+    the same id twice, never among siblings, never a counter or FILLER, never an ancestor/descendant pair"""
+    groups = []
+
+    def go(n, anc):
+        if n["kind"] == "group":
+            groups.append((n, anc))
+            for k in n["kids"]:
+                go(k, anc + [n["id"]])
+    go(tree, [])
+    cands = []
+    for gi, (g, anc) in enumerate(groups):
+        for k in g["kids"]:
+            if not k["filler"] and not k.get("is_counter") and k["kind"] == "elem":
+                cands.append((gi, k))
+    rng.shuffle(cands)
+    used = set()
+    for a in range(len(cands)):
+        for b in range(a + 1, len(cands)):
+            (ga, ka), (gb, kb) = cands[a], cands[b]
+            if ga == gb or id(ka) in used or id(kb) in used:
+                continue
+            # keep sibling ids distinct inside both groups and leave REDEFINES targets consistent
+            sib_b = {k["id"] for k in groups[gb][0]["kids"]}
+            if ka["id"] in sib_b:
+                continue
+            if any(k["redef"] == kb["id"] for k in groups[gb][0]["kids"]):
+                # the redefiners of kb follow the new name
+                for k in groups[gb][0]["kids"]:
+                    if k["redef"] == kb["id"]:
+                        k["redef"] = ka["id"]
+            kb["id"] = ka["id"]
+            used.add(id(ka)); used.add(id(kb))
+            if len(used) >= 4:
+                return
 
 
 # ---------------------------------------------------------------- names
@@ -327,6 +367,19 @@ def schema_sx(d, names_rev, unpacker):
     return [0, a, unpacker.calcsize(AtomicSchema(d))]
 
 
+_SHARED = {}
+
+
+def shared_unpacker(text):
+    """one long-lived unpacker per class for the whole run, as a long-lived workbook would have:
+    state kept on the unpacker across schemas (caches) shows up as a difference"""
+    from stingray.schema_instance import EBCDIC, TextUnpacker
+    cls = TextUnpacker if text else EBCDIC
+    if cls not in _SHARED:
+        _SHARED[cls] = cls()
+    return _SHARED[cls]
+
+
 def observe_layout(tree, record, paths, text):
     """returns (schema_obs, top_obs, lrecl_obs, [(path, obs)], extras) from the real code"""
     from lib import exn_code
@@ -335,7 +388,7 @@ def observe_layout(tree, record, paths, text):
     names = assign_names(tree)
     rev = {v: k for k, v in names.items()}
     cb = print_copybook(tree)
-    unp = TextUnpacker() if text else EBCDIC()
+    unp = shared_unpacker(text)
     keep = [unp]
     try:
         docs = list(schema_iter(io.StringIO(cb)))
@@ -356,12 +409,36 @@ def observe_layout(tree, record, paths, text):
     except BaseException as ex:
         code = exn_code(ex)
         return schema_obs, [1, code], lrecl_obs, [[p, [1, code]] for p in paths], None
+    # Navigators are created breadth-first from SHARED parent navigators and all of them are kept alive;
+    # only afterwards is anything read.  So every index() of a table is taken from one held table navigator
+    # before the rows are looked into - the way an application loops over a table.
+    navs = {(): nav0}
+    errs = {}
+    for p in sorted(paths, key=len):
+        t = tuple(map(tuple, p))
+        for k in range(1, len(t) + 1):
+            pre = t[:k]
+            if pre in navs or pre in errs:
+                continue
+            par = pre[:-1]
+            if par in errs:
+                errs[pre] = errs[par]
+                continue
+            kind, x = pre[-1]
+            try:
+                navs[pre] = navs[par].index(x) if kind == 1 else navs[par].name(names[x])
+            except BaseException as ex:
+                if isinstance(ex, (KeyboardInterrupt, SystemExit)):
+                    raise
+                errs[pre] = exn_code(ex)
     out = []
     for p in paths:
+        t = tuple(map(tuple, p))
+        if t in errs:
+            out.append([p, [1, errs[t]]])
+            continue
         try:
-            nav = nav0
-            for kind, x in p:
-                nav = nav.index(x) if kind == 1 else nav.name(names[x])
+            nav = navs[t]
             raw = nav.raw()
             raw = [ord(c) for c in raw] if text else list(raw)
             out.append([p, [0, nav.location.start, nav.location.end, raw]])
